@@ -14,16 +14,29 @@ import (
 func mapLookupObj(m *MapObj, k Value) (Value, *Term) {
 	val := zero(m.typ.Elem())
 	ok := TS.False
+	// first-match chain with syntactically exclusive conditions (entries with equal keys are never both present)
+	var conds []*Term
+	var vals []Value
+	none := TS.True
 	for _, en := range m.entries {
 		if en.present.IsFalse() {
 			continue
 		}
-		match := And(en.present, eqV(en.key, k))
+		raw := And(en.present, eqV(en.key, k))
+		if raw.IsFalse() {
+			continue
+		}
+		match := And(none, raw)
+		none = And(none, Not(raw))
 		if match.IsFalse() {
 			continue
 		}
-		val = iteV(match, en.val, val)
+		conds = append(conds, match)
+		vals = append(vals, en.val)
 		ok = Or(ok, match)
+	}
+	for i := len(conds) - 1; i >= 0; i-- {
+		val = iteV(conds[i], vals[i], val)
 	}
 	return val, ok
 }
@@ -41,18 +54,25 @@ func (e *Engine) mapUpdate(mv, k, v Value, g *Term, pos token.Pos) {
 			continue
 		}
 		any := TS.False
+		none := TS.True
 		for _, en := range m.entries {
 			if en.present.IsFalse() {
 				continue
 			}
-			match := And(en.present, eqV(en.key, k))
+			raw := And(en.present, eqV(en.key, k))
+			if raw.IsFalse() {
+				continue
+			}
+			match := And(none, raw)
+			none = And(none, Not(raw))
 			if match.IsFalse() {
 				continue
 			}
 			en.val = iteV(And(gg, match), v, en.val)
 			any = Or(any, match)
 		}
-		np := And(gg, Not(any))
+		np := And(gg, none)
+		_ = any
 		if !np.IsFalse() {
 			m.entries = append(m.entries, &MapEntry{key: k, present: np, val: v})
 		}
@@ -276,7 +296,7 @@ func (e *Engine) chanRecv(ch Value, commaOk bool, g *Term, pos token.Pos, ct typ
 		if !c.canRecv().IsTrue() {
 			// try idle hook once
 			blocked := And(gg, Not(c.canRecv()))
-			if e.feasible(blocked) {
+			if e.feasibleW(blocked, "blocked") {
 				e.runIdle(blocked, pos)
 			}
 		}
@@ -359,7 +379,7 @@ func (f *Frame) selectInstr(in *ssa.Select, g *Term) Value {
 	any := compute()
 	if in.Blocking && !any.IsTrue() {
 		blocked := And(g, Not(any))
-		if e.feasible(blocked) {
+		if e.feasibleW(blocked, "blocked") {
 			e.runIdle(blocked, in.Pos())
 			any = compute()
 			e.vc("block", "select blocks forever (no case ready after idle hook)", in.Pos(), And(g, Not(any)))
